@@ -112,7 +112,7 @@ def atomic_family(args):
 def run_atomic(rep, ns, Ws, s0):
     work = [(o, p, n, W, s0) for o in OPTS3 for p in ('cont3z', 'mixed3', 'cont3z^max') for n in ns for W in Ws]
     # tasks that carry an integer seed (the library seeds the generator from it before the population is generated)
-    work += [(o, 'cont3z', n, W, s0, 5) for o in OPTS3 for n in ns for W in Ws]
+    work += [(o, 'cont3z', n, W, s0, ts) for o in OPTS3 for n in ns for W in Ws for ts in (5, 2 ** 32 - 1, 0)]
     tot = dist = 0
     samples = []
     for k, d, res, sample in explore.pool().imap_unordered(atomic_family, work):
